@@ -262,6 +262,10 @@ func c01(c *h.Ctx) {
 		{{cid: 5, ty: 9, sid: 1, ts: 0, payload: h.LCGBytes(129, 7), desc: "p:129:7"}},                                                                                  // F17
 		{{cid: 2, ty: 1, sid: 0, ts: 0, payload: []byte{0, 0, 16, 0}, desc: "00001000"}, {cid: 5, ty: 9, sid: 1, ts: 40, payload: h.LCGBytes(200, 9), desc: "p:200:9"}}, // F3
 		{{cid: 7, ty: 9, sid: 1, ts: 0xFFFFFF, payload: h.LCGBytes(300, 3), desc: "p:300:3"}},
+		// chunk sizes above 64 KiB with messages longer than 64 KiB (one chunk each on both sides)
+		{{cid: 2, ty: 1, sid: 0, ts: 0, payload: []byte{0, 2, 0, 0}, desc: "00020000"}, {cid: 6, ty: 9, sid: 1, ts: 7, payload: h.LCGBytes(70000, 5), desc: "p:70000:5"}},
+		{{cid: 2, ty: 1, sid: 0, ts: 0, payload: []byte{0, 0xff, 0xff, 0xff}, desc: "00ffffff"}, {cid: 6, ty: 8, sid: 1, ts: 9, payload: h.LCGBytes(200000, 6), desc: "p:200000:6"}, {cid: 6, ty: 8, sid: 1, ts: 10, payload: h.LCGBytes(3, 7), desc: "p:3:7"}},
+		{{cid: 2, ty: 1, sid: 0, ts: 0, payload: []byte{0x7f, 0xff, 0xff, 0xff}, desc: "7fffffff"}, {cid: 9, ty: 18, sid: 1, ts: 0x7fffffff, payload: h.LCGBytes(65537, 8), desc: "p:65537:8"}},
 	}
 	for _, ms := range regress {
 		var wire bytes.Buffer
